@@ -18,25 +18,35 @@ type Gen struct {
 	FaultP  float64 // probability that a tx-producing intent carries a transport fault
 	Out     []Intent
 	byzSet  map[int]bool
+	EveryBoundary bool
 }
 
 func weightsFor(profile string) map[string]int {
 	base := map[string]int{"block": 22, "user_send": 12, "user_cancel": 3, "req_batch": 3, "ext_deposit": 8,
 		"poll_all": 10, "orch_poll": 6, "sign_all": 7, "orch_sign": 3, "relay": 10, "stall": 1, "ext_tick": 2,
-		"stake": 2, "oracle_round": 1, "byz_claim": 2, "node_restart": 1, "clock_jump": 2}
+		"stake": 2, "oracle_round": 1, "byz_claim": 2, "node_restart": 1, "clock_jump": 2, "batch_race": 2}
 	switch profile {
 	case "C05adv":
 		return map[string]int{"block": 20, "adv_event": 14, "user_send": 10, "req_batch": 4, "user_cancel": 2, "clock_jump": 2, "sign_all": 1}
 	case "C05size":
 		return map[string]int{"block": 10, "size_burst": 6, "poll_all": 8, "sign_all": 4, "relay": 4, "clock_jump": 3, "ext_deposit": 3, "ext_tick": 2}
 	case "C04", "C10", "C12", "C13":
+		base["cancel_pair"] = 5
+		base["batch_race"] = 7
 		base["user_send"] = 20
 		base["user_cancel"] = 8
 		base["req_batch"] = 8
 		base["clock_jump"] = 4
 		base["ext_tick"] = 4
 		base["stall"] = 2
-	case "C02", "C03", "C14":
+	case "C14":
+		base["byz_claim"] = 22
+		base["orch_poll"] = 10
+		base["ext_deposit"] = 14
+		base["user_send"] = 14
+		base["relay"] = 14
+		base["sign_all"] = 10
+	case "C02", "C03":
 		base["byz_claim"] = 8
 		base["orch_poll"] = 14
 		base["stake"] = 6
@@ -73,6 +83,10 @@ func weightsFor(profile string) map[string]int {
 
 func NewGen(r *rand.Rand, w *World, profile string) *Gen {
 	g := &Gen{R: r, W: w, Profile: profile, Weights: weightsFor(profile), byzSet: map[int]bool{}}
+	if profile == "C15" && r.Intn(3) == 0 {
+		g.EveryBoundary = true
+		w.St.Probe("every-boundary-run")
+	}
 	switch r.Intn(4) {
 	case 0:
 		g.FaultP = 0 // fault-free run: relaxations under faults cannot hide an ordinary bug
@@ -88,6 +102,12 @@ func (g *Gen) emit(in Intent) {
 	ix := len(g.Out)
 	g.Out = append(g.Out, in)
 	g.W.Exec(ix, in)
+	// C15 enumeration mode: the restart is tried at EVERY block boundary of the run
+	if g.EveryBoundary && in.T == "block" && !g.W.Stopped() {
+		cmp := Intent{T: "export_import", Op: "compare"}
+		g.Out = append(g.Out, cmp)
+		g.W.Exec(len(g.Out)-1, cmp)
+	}
 }
 
 func (g *Gen) net() string {
@@ -192,6 +212,10 @@ func (g *Gen) Step() {
 		if g.R.Intn(3) == 0 {
 			in.Dest = "u" + strconv.Itoa(g.R.Intn(len(w.Users)))
 		}
+		if g.R.Intn(8) == 0 {
+			in.N = 2 + g.R.Intn(2) // several withdrawals in one transaction
+			w.St.Probe("multi-message-send")
+		}
 		if g.R.Intn(25) == 0 { // operation-level faults: unknown denom / chain, overdraft
 			switch g.R.Intn(3) {
 			case 0:
@@ -251,6 +275,9 @@ func (g *Gen) Step() {
 		for v := range w.Vals {
 			if g.R.Intn(10) == 0 {
 				continue // this orchestrator is down / slow this round
+			}
+			if g.byzSet[v] && g.R.Intn(4) != 0 {
+				continue // a Byzantine validator mostly withholds its honest claims (and lags behind)
 			}
 			g.emit(Intent{T: "orch_poll", V: v, Chain: ch, N: 1 + g.R.Intn(10), Net: g.net()})
 		}
@@ -327,7 +354,14 @@ func (g *Gen) Step() {
 			g.byzSet[v] = true
 		}
 		if g.byzSet[v] {
-			g.emit(Intent{T: "byz_claim", V: v, Chain: g.chain(), Pick: g.R.Intn(16), Net: ""})
+			ch := g.chain()
+			n := 1
+			if g.Profile == "C14" {
+				n = 1 + g.R.Intn(4) // walk several nonces: the Byzantine cursor only moves through its own claims
+			}
+			for i := 0; i < n; i++ {
+				g.emit(Intent{T: "byz_claim", V: v, Chain: ch, Pick: g.R.Intn(16), Net: ""})
+			}
 		}
 	case "node_restart":
 		if g.FaultP > 0 {
@@ -349,11 +383,91 @@ func (g *Gen) Step() {
 		}
 		g.emit(in)
 	case "export_import":
-		g.emit(Intent{T: "export_import"})
+		g.emit(Intent{T: "export_import", Op: []string{"", "compare", "compare"}[g.R.Intn(3)]})
 	case "adv_event":
 		g.advEvent()
 	case "size_burst":
 		g.sizeBurst()
+	case "batch_race":
+		g.batchRace()
+	case "cancel_pair":
+		// several withdrawals in one transaction, then their sender cancels them one after the other
+		t := g.token()
+		u := g.R.Intn(len(w.Users))
+		funds := bigOf(w.Cfg.UserFunds)
+		g.emit(Intent{T: "user_send", U: u, Chain: t.Chain, Denom: t.Denom, Amt: g.amount(new(big.Int).Quo(funds, big.NewInt(100))), Fee: g.fee(), N: 2 + g.R.Intn(2)})
+		g.emit(Intent{T: "block", Dt: 5, N: 1})
+		for i := 0; i < 3; i++ {
+			g.emit(Intent{T: "user_cancel", U: u, Chain: t.Chain, Op: "own", Pick: 0})
+			if g.R.Intn(2) == 0 {
+				g.emit(Intent{T: "block", Dt: 5, N: 1})
+			}
+		}
+		g.emit(Intent{T: "block", Dt: 5, N: 1})
+	}
+}
+
+// batchRace drives one chain into the states the batch properties are about: several tokens with several
+// pending batches each, confirmed, then executed in an arbitrary order (newest first, a middle one, …).
+func (g *Gen) batchRace() {
+	w := g.W
+	ch := []string{"ethereum", "bsc", "ethereum", "bsc", "minter"}[g.R.Intn(5)]
+	var toks []TokenCfg
+	for _, t := range w.Cfg.Tokens {
+		if t.Chain == ch {
+			toks = append(toks, t)
+		}
+	}
+	if len(toks) == 0 {
+		return
+	}
+	w.St.Probe("batch-race-scenario")
+	// the chain's first event must be observed, otherwise batches are born with timeout 0
+	for v := range w.Vals {
+		g.emit(Intent{T: "orch_poll", V: v, Chain: ch, N: 10})
+	}
+	g.emit(Intent{T: "block", Dt: 5, N: 1})
+	funds := bigOf(w.Cfg.UserFunds)
+	max := new(big.Int).Quo(funds, big.NewInt(200))
+	rounds := 2 + g.R.Intn(2)
+	for r := 0; r < rounds && !w.Stopped(); r++ {
+		for _, t := range toks {
+			if g.R.Intn(4) == 0 && r > 0 {
+				continue
+			}
+			for k := 1 + g.R.Intn(3); k > 0; k-- {
+				g.emit(Intent{T: "user_send", U: g.R.Intn(len(w.Users)), Chain: ch, Denom: t.Denom, Amt: g.amount(max), Fee: g.fee(), Net: g.net()})
+			}
+		}
+		g.emit(Intent{T: "block", Dt: 5, N: 2})
+		if g.R.Intn(3) == 0 {
+			t := toks[g.R.Intn(len(toks))]
+			g.emit(Intent{T: "req_batch", U: g.R.Intn(len(w.Users)), Chain: ch, Denom: t.Denom})
+		}
+	}
+	for k := 0; k < 2; k++ {
+		for v := range w.Vals {
+			g.emit(Intent{T: "orch_sign", V: v, Chain: ch})
+		}
+		g.emit(Intent{T: "block", Dt: 5, N: 1})
+	}
+	if g.R.Intn(3) == 0 {
+		g.emit(Intent{T: "relay", Chain: ch, Op: "valset", Pick: 0})
+	}
+	n := 1 + g.R.Intn(3)
+	for i := 0; i < n; i++ {
+		// newest first more often than not
+		pick := 7 - g.R.Intn(3)
+		if g.R.Intn(3) == 0 {
+			pick = g.R.Intn(8)
+		}
+		g.emit(Intent{T: "relay", Chain: ch, Op: "batch", Pick: pick, Gas: []string{"0", "1000", "21000000000000"}[g.R.Intn(3)], U: g.R.Intn(3)})
+	}
+	for k := 0; k < 2; k++ {
+		for v := range w.Vals {
+			g.emit(Intent{T: "orch_poll", V: v, Chain: ch, N: 10, Net: g.net()})
+		}
+		g.emit(Intent{T: "block", Dt: 5, N: 1})
 	}
 }
 
